@@ -8,7 +8,7 @@ use serde_json::{json, Value};
 use crate::parser::AST;
 
 use super::gen::{GenCfg, StrRegime};
-use super::proc::{run_child, run_live_pipeline, scratch_dir, Child, ChildResult, Exit, In, Out, Profile, ShimCfg};
+use super::proc::{run_child, run_live_pipeline, run_scheduled_pair, scratch_dir, Child, ChildResult, Exit, In, Out, Profile, ShimCfg};
 use super::report::{Evidence, Violation};
 use super::util::{catch, digest_bytes, digest_of, first_difference, first_line, par_map, Rng};
 use super::vm;
@@ -102,6 +102,10 @@ pub struct Tuple {
     pub crash_before: Option<(usize, String)>,
     /// the pipeline runs as a live shell pipeline (all stages alive at once on kernel pipes) instead of stage by stage
     pub live: bool,
+    /// Some((stage, schedule)): that stage (0 parse, 1 compile) runs as TWO live invocations of the very same command line under
+    /// the cooperative scheduler (they announce before opening the output, before their first writes to it, before rename/flock);
+    /// whenever both wait, character k of the schedule says who goes. Both must succeed and the shared output must be right.
+    pub overlap: Option<(usize, String)>,
 }
 
 pub const INPUT_NAMES: &[&str] = &["prog.fml", "prog.fml", "job.1.fml", "my prog.fml", "prog.v2.final.fml", "прог.fml", "noext", "a.b", "UPPER.FML", "x.json.fml", "trailing.dot..fml"];
@@ -111,7 +115,8 @@ impl Tuple {
         json!({"format": self.format.ext(), "parse_flag": self.parse_flag, "parse_stdin": self.parse_stdin, "parse_out": self.parse_out.name(),
                "compile_flag": self.compile_flag, "compile_stdin": self.compile_stdin, "compile_out": self.compile_out.name(), "exec_stdin": self.exec_stdin,
                "profile": self.profile.name(), "plans": self.plans, "wrapper": self.wrapper, "input_name": self.input_name, "stale": self.stale, "hash_seed": self.hash_seed, "hard_stage": self.hard_stage, "wrapper_stages": self.wrapper_stages, "guest_stdout_fault": self.guest_stdout_fault,
-               "crash_before": self.crash_before.as_ref().map(|(s, p)| json!([s, p])), "live": self.live})
+               "crash_before": self.crash_before.as_ref().map(|(s, p)| json!([s, p])), "live": self.live,
+               "overlap": self.overlap.as_ref().map(|(s, p)| json!([s, p]))})
     }
     pub fn from_json(v: &Value) -> Option<Tuple> {
         let plans = v.get("plans")?.as_array()?;
@@ -135,6 +140,7 @@ impl Tuple {
             guest_stdout_fault: v.get("guest_stdout_fault").and_then(|x| x.as_str()).unwrap_or("").to_string(),
             crash_before: v.get("crash_before").and_then(|x| x.as_array()).and_then(|a| Some((a.get(0)?.as_u64()? as usize, a.get(1)?.as_str()?.to_string()))),
             live: v.get("live").and_then(|x| x.as_bool()).unwrap_or(false),
+            overlap: v.get("overlap").and_then(|x| x.as_array()).and_then(|a| Some((a.get(0)?.as_u64()? as usize, a.get(1)?.as_str()?.to_string()))),
         })
     }
 
@@ -177,13 +183,14 @@ impl Tuple {
             guest_stdout_fault: String::new(),
             crash_before: None,
             live: false,
+            overlap: None,
         }
     }
 
     pub fn plain(format: Fmt, profile: Profile) -> Tuple {
         Tuple { format, parse_flag: Some(format.ext().to_string()), parse_stdin: false, parse_out: Chan::OFile, compile_flag: None, compile_stdin: false,
                 compile_out: Chan::OFile, exec_stdin: false, profile, plans: [String::new(), String::new(), String::new()], wrapper: false,
-                input_name: "prog.fml".into(), stale: false, hash_seed: 11, hard_stage: None, wrapper_stages: false, guest_stdout_fault: String::new(), crash_before: None, live: false }
+                input_name: "prog.fml".into(), stale: false, hash_seed: 11, hard_stage: None, wrapper_stages: false, guest_stdout_fault: String::new(), crash_before: None, live: false, overlap: None }
     }
 }
 
@@ -274,6 +281,7 @@ pub struct Staged {
     pub exits: [Option<Exit>; 3],
     /// killed predecessor invocations that really died inside their output
     pub crashes_fired: u64,
+    pub overlaps_run: u64,
 }
 
 fn count_calls(trace: &str) -> [u64; 4] {
@@ -311,6 +319,21 @@ fn stage_child(t: &Tuple, argv: &[&str]) -> Child {
     c
 }
 
+/// Runs one stage: once, or — when the tuple says so — as two live invocations of the same command under the scheduler.
+fn run_stage(t: &Tuple, stage: usize, dir: &std::path::Path, c: &Child, st: &mut Staged) -> ChildResult {
+    if let Some((s, sched)) = &t.overlap {
+        if *s == stage {
+            let choices: Vec<u8> = sched.bytes().map(|b| b.wrapping_sub(b'0')).collect();
+            let (ra, rb, _) = run_scheduled_pair(dir, c, c, "openw,writef,rename,flock,unlink", &choices);
+            st.children += 1;
+            st.overlaps_run += 1;
+            // both must end alike: hand on the less successful one
+            return if ra.exit.is_success() { ChildResult { stdout: ra.stdout, ..rb } } else { ra };
+        }
+    }
+    run_child(dir, c)
+}
+
 /// The earlier, killed invocation of a stage (same command line, same directory): runs until the shim kills it.
 fn crashed_predecessor(t: &Tuple, stage: usize, dir: &std::path::Path, c: &Child, st: &mut Staged) {
     if let Some((s, plan)) = &t.crash_before {
@@ -328,7 +351,7 @@ pub fn run_staged(source: &str, t: &Tuple) -> Staged {
     let dir = scratch_dir();
     let input_name: &str = if t.wrapper { "prog.fml" } else { t.input_name.as_str() };
     std::fs::write(dir.join(input_name), source).unwrap();
-    let mut st = Staged { ast_bytes: None, bc_bytes: None, exec: None, failed: None, children: 0, faults_fired: 0, budget_exceeded: false, calls: [[0; 4]; 3], hard_fired: [0; 3], exits: [None, None, None], crashes_fired: 0 };
+    let mut st = Staged { ast_bytes: None, bc_bytes: None, exec: None, failed: None, children: 0, faults_fired: 0, budget_exceeded: false, calls: [[0; 4]; 3], hard_fired: [0; 3], exits: [None, None, None], crashes_fired: 0, overlaps_run: 0 };
     let ext = t.format.ext();
     if t.wrapper {
         // bash <repo>/fml run prog.fml with PARSER/COMPILER/INTERPRETER pointing at the binary
@@ -391,7 +414,7 @@ pub fn run_staged(source: &str, t: &Tuple) -> Staged {
     c.shim = stage_shim(t, 0, source.len());
     crashed_predecessor(t, 0, &dir, &c, &mut st);
     let astdir_before = snapshot_dir(&dir.join("astdir"));
-    let r = run_child(&dir, &c);
+    let r = run_stage(t, 0, &dir, &c, &mut st);
     st.children += 1;
     st.calls[0] = count_calls(&r.trace);
     st.hard_fired[0] = count_hard(&r.trace);
@@ -465,7 +488,7 @@ pub fn run_staged(source: &str, t: &Tuple) -> Staged {
     c.shim = stage_shim(t, 1, source.len());
     crashed_predecessor(t, 1, &dir, &c, &mut st);
     let bcdir_before = snapshot_dir(&dir.join("bcdir"));
-    let r = run_child(&dir, &c);
+    let r = run_stage(t, 1, &dir, &c, &mut st);
     st.children += 1;
     st.calls[1] = count_calls(&r.trace);
     st.hard_fired[1] = count_hard(&r.trace);
@@ -879,6 +902,7 @@ pub fn minimise(case: &Case, oracle: &str) -> Case {
     try_field!(wrapper);
     try_field!(wrapper_stages);
     try_field!(crash_before);
+    try_field!(overlap);
     try_field!(guest_stdout_fault);
     try_field!(exec_stdin);
     try_field!(compile_out);
@@ -1102,6 +1126,21 @@ fn exercise(name: &str, spec: &ProgSpec, rng: &mut Rng, n_tuples: usize, n_hard:
             out.distinct.push(digest_of(&(digest, &t)));
             out.counters.push(("pipelines_with_the_same_stdout_failure_under_run_and_execute".into(), 1));
             if let Some(v) = judge(&prep, &t, &direct2, &st) {
+                out.violations.push((Case { spec: spec.clone(), tuple: t.clone() }, v));
+            }
+        } else if round % 4 == 3 || n_hard <= 2 && round % 2 == 1 && rng.coin() {
+            // two live invocations of one stage's command line, writing the same output, under a decided interleaving
+            let stage = rng.usize_below(2);
+            if stage == 0 { t.parse_out = if rng.coin() { Chan::OFile } else { Chan::ODir }; if t.parse_flag.is_none() && t.parse_out == Chan::ODir { t.parse_flag = Some(t.format.ext().to_string()); } t.parse_stdin = false; }
+            else { t.compile_out = if rng.coin() { Chan::OFile } else { Chan::ODir }; t.compile_stdin = false; if t.parse_out == Chan::StdoutPipe || t.parse_out == Chan::DevStdout { t.parse_out = Chan::OFile; } if t.compile_flag.is_none() && t.parse_flag.is_none() && t.parse_out != Chan::OFile { t.compile_flag = Some(t.format.ext().to_string()); } }
+            t.stale = false;
+            t.overlap = Some((stage, (0..10).map(|_| if rng.coin() { '1' } else { '0' }).collect()));
+            let st = run_staged(&source, &t);
+            out.children += st.children;
+            out.evaluations += 1;
+            out.distinct.push(digest_of(&(digest, &t)));
+            if st.overlaps_run > 0 { out.counters.push(("pipelines_with_one_stage_as_two_live_invocations_under_a_decided_interleaving".into(), 1)); }
+            if let Some(v) = judge(&prep, &t, &direct, &st) {
                 out.violations.push((Case { spec: spec.clone(), tuple: t.clone() }, v));
             }
         } else {
